@@ -21,9 +21,13 @@ Macro table entry (function M below):
   inst   {'quick': [...], 'thorough': [...], 'sample': [...]} parameter dicts: exhaustive theorem instances per
          tier and the larger sizes that are only SAMPLED on the real engines
   seq    call template on the shared variables {x} {y} {z} when the macro takes part in the composition harness
-  dom    {placeholder: (lo, hi)} restricts the enumerated domain of a variable (default: every value of its size);
-         used to pin pure OUTPUT variables to one garbage value so that the inputs stay enumerable at a larger n
-         (the restriction is explicit in the generated theorem statement)
+  pin    {placeholder: garbage value} - instances whose parameter dict carries pin=1 restrict the enumerated domain of
+         these (pure OUTPUT) variables to that one value (masked to the variable size) so that the inputs stay
+         enumerable at a larger n; the restriction is explicit in the generated theorem statement
+  guard  spec-instance template of a boolean predicate (StlSpec.v + GUARDS here) describing the operands of a KNOWN,
+         reported defect: the Coq theorem is stated for `guarded <guard> <spec>`, a `_refuted` example is generated
+         from `witness` (params -> operand lists), and the real-engine runs keep using the unguarded spec so the
+         defect stays reported until it is fixed or listed in known_findings.json
 """
 
 MASK = lambda k: (1 << k) - 1  # noqa: E731
@@ -190,9 +194,10 @@ def spec_fn(inst):
 # ---------------------------------------------------------------------------------------------------------
 # macro tables
 
-def M(name, file, sig, call, vars, spec, exits=0, temps=(), inst=None, seq=None, dom=None, note=None):
+def M(name, file, sig, call, vars, spec, exits=0, temps=(), inst=None, seq=None, pin=None, note=None, guard=None,
+      witness=None):
     return dict(name=name, file=file, sig=sig, call=call, vars=list(vars), spec=spec, exits=exits,
-                temps=list(temps), inst=inst, seq=seq, dom=dom or {}, note=note)
+                temps=list(temps), inst=inst, seq=seq, pin=pin or {}, note=note, guard=guard, witness=witness)
 
 
 def N_(*ns, **extra):
@@ -328,12 +333,8 @@ HEX = [
             'sample': consts([8], [0x12345678, 0x1000, 1])}),
     # ---- hex/mul.fj
     M('hex.mul', 'hex/mul.fj', 'def mul n, res, a, b', 'hex.mul {n}, {a}, {b}, {c}',
-      [('a', 'hex', 'n'), ('b', 'hex', 'n'), ('c', 'hex', 'n')], 'hex_mul {n}', temps=T_HEXMUL,
-      inst={'quick': N_(1), 'thorough': N_(1), 'sample': N_(2, 4, 8)}, seq='hex.mul {n}, {z}, {x}, {y}'),
-    M('hex.mul/n2', 'hex/mul.fj', 'def mul n, res, a, b', 'hex.mul {n}, {a}, {b}, {c}',
-      [('a', 'hex', 'n'), ('b', 'hex', 'n'), ('c', 'hex', 'n')], 'hex_mul {n}', temps=T_HEXMUL, dom={'a': (0xa5, 0xa6)},
-      inst={'quick': [], 'thorough': N_(2, w=[64]), 'sample': []},
-      note='res pinned to the garbage value 0xa5 so that n=2 is enumerable: 65,536 pairs (a, b)'),
+      [('a', 'hex', 'n'), ('b', 'hex', 'n'), ('c', 'hex', 'n')], 'hex_mul {n}', temps=T_HEXMUL, pin={'a': 0xa5},
+      inst={'quick': N_(1), 'thorough': N_(1) + N_(2, pin=1, w=[64]), 'sample': N_(2, 4, 8)}, seq='hex.mul {n}, {z}, {x}, {y}'),
     M('hex.mul10', 'hex/mul.fj', 'def mul10 n, x', 'hex.mul10 {n}, {a}', [('a', 'hex', 'n')], 'hex_mul10 {n}', inst=H1,
       seq='hex.mul10 {n}, {x}'),
     M('hex.add_mul', 'hex/mul.fj', 'def add_mul n, res, a, b', 'hex.add_mul {n}, {a}, {b}, {c}',
@@ -342,24 +343,18 @@ HEX = [
     # ---- hex/div.fj
     M('hex.div', 'hex/div.fj', 'def div n, nb, q, r, a, b, div0', 'hex.div {n}, {nb}, {q}, {r}, {a}, {b}, {x1}',
       [('q', 'hex', 'n'), ('r', 'hex', 'nb'), ('a', 'hex', 'n'), ('b', 'hex', 'nb')], 'hex_div {n} {nb}', exits=1,
-      temps=T_HEXDIV, inst={'quick': [dict(n=1, nb=1)], 'thorough': [dict(n=1, nb=1)],
-                            'sample': [dict(n=2, nb=2), dict(n=4, nb=2), dict(n=8, nb=8)]}),
-    M('hex.div/n2', 'hex/div.fj', 'def div n, nb, q, r, a, b, div0', 'hex.div {n}, {nb}, {q}, {r}, {a}, {b}, {x1}',
-      [('q', 'hex', 'n'), ('r', 'hex', 'nb'), ('a', 'hex', 'n'), ('b', 'hex', 'nb')], 'hex_div {n} {nb}', exits=1,
-      temps=T_HEXDIV, dom={'q': (0x3c, 0x3d), 'r': (9, 10)},
-      inst={'quick': [], 'thorough': [dict(n=2, nb=1), dict(n=2, nb=2, w=[64])], 'sample': []},
-      note='q and r pinned to garbage values so that n=2 is enumerable over (a, b)'),
+      temps=T_HEXDIV, pin={'q': 0x3c, 'r': 0x59},
+      inst={'quick': [dict(n=1, nb=1, pin=1)],
+            'thorough': [dict(n=1, nb=1, w=[64]), dict(n=1, nb=1, pin=1, w=[32]), dict(n=2, nb=1, pin=1), dict(n=2, nb=2, pin=1, w=[64])],
+            'sample': [dict(n=2, nb=2), dict(n=4, nb=2), dict(n=8, nb=8)]}),
     M('hex.idiv', 'hex/div.fj', 'def idiv n, nb, q, r, a, b, div0, rem_opt',
       'hex.idiv {n}, {nb}, {q}, {r}, {a}, {b}, {x1}, {ro}',
       [('q', 'hex', 'n'), ('r', 'hex', 'nb'), ('a', 'hex', 'n'), ('b', 'hex', 'nb')], 'hex_idiv {n} {nb} {ro}', exits=1,
-      temps=T_HEXIDIV, inst={'quick': [dict(n=1, nb=1, ro=0)], 'thorough': [dict(n=1, nb=1, ro=ro) for ro in (0, 1, 2)],
-                             'sample': [dict(n=2, nb=2, ro=ro) for ro in (0, 1, 2)] + [dict(n=4, nb=4, ro=0)]}),
-    M('hex.idiv/n2', 'hex/div.fj', 'def idiv n, nb, q, r, a, b, div0, rem_opt',
-      'hex.idiv {n}, {nb}, {q}, {r}, {a}, {b}, {x1}, {ro}',
-      [('q', 'hex', 'n'), ('r', 'hex', 'nb'), ('a', 'hex', 'n'), ('b', 'hex', 'nb')], 'hex_idiv {n} {nb} {ro}', exits=1,
-      temps=T_HEXIDIV, dom={'q': (0x3c, 0x3d), 'r': (9, 10)},
-      inst={'quick': [], 'thorough': [dict(n=2, nb=2, ro=ro, w=[64]) for ro in (0, 1, 2)] + [dict(n=2, nb=1, ro=1)], 'sample': []},
-      note='q and r pinned to garbage values so that n=2 is enumerable over (a, b)'),
+      temps=T_HEXIDIV, pin={'q': 0x3c, 'r': 0x59},
+      inst={'quick': [dict(n=1, nb=1, ro=ro, pin=1) for ro in (0, 1, 2)],
+            'thorough': [dict(n=1, nb=1, ro=0, w=[64])] + [dict(n=1, nb=1, ro=ro, pin=1) for ro in (1, 2)]
+                        + [dict(n=2, nb=2, ro=ro, pin=1, w=[64]) for ro in (0, 1, 2)] + [dict(n=2, nb=1, ro=1, pin=1)],
+            'sample': [dict(n=2, nb=2, ro=ro) for ro in (0, 1, 2)] + [dict(n=4, nb=4, ro=0)]}),
     # ---- hex/shifts.fj
     M('hex.shl_bit', 'hex/shifts.fj', 'def shl_bit n, dst', 'hex.shl_bit {n}, {a}', [('a', 'hex', 'n')], 'hex_shl_bit {n}',
       inst=H1, seq='hex.shl_bit {n}, {x}'),
@@ -422,16 +417,15 @@ T_NEGS = [('negative_a', '1'), ('negative_b', '1'), ('one_negative', '1')]
 GARB = lambda n: ((0xA5A5A5A5 >> 3) & ((1 << n) - 1))   # noqa: E731
 
 
-def _divdom(n):
-    return {'q': (GARB(n), GARB(n) + 1), 'r': ((GARB(n) >> 1), (GARB(n) >> 1) + 1)}
-
-
 def shifts(ns):
     return [dict(n=n, t=t) for n in ns for t in range(0, n + 1)]
 
 
+BDIV_PIN = {'q': 0xA5A5A5A5 >> 3, 'r': 0xA5A5A5A5 >> 4}
+
+
 def DIVI(small, big):
-    """division family: everything enumerated at the small sizes, q/r pinned at the big ones (done in stl.py via 'pin')"""
+    """division family: everything enumerated at the small sizes, q/r pinned at the big ones"""
     return {'quick': [dict(n=n) for n in small[:2]], 'thorough': [dict(n=n) for n in small] + [dict(n=n, pin=1, w=[64]) for n in big],
             'sample': N_(8, 16)}
 
@@ -553,23 +547,36 @@ BIT = [
       'bit_div10 {n}', inst={'quick': N_(1, 4), 'thorough': N_(1, 2, 3, 4, 5, 6) + N_(8, w=[64]), 'sample': N_(16, 32)}),
     M('bit.div', 'bit/div.fj', 'def div n, a, b, q, r', 'bit.div {n}, {a}, {b}, {q}, {r}',
       [('a', 'bit', 'n'), ('b', 'bit', 'n'), ('q', 'bit', 'n'), ('r', 'bit', 'n')], 'bit_div {n}',
-      temps=T_ADD + [('R', '2*n'), ('Q', 'n')], inst=DIVI([1, 2, 3], [4, 6])),
+      temps=T_ADD + [('R', '2*n'), ('Q', 'n')], inst=DIVI([1, 2, 3], [4, 6]), pin=BDIV_PIN),
     M('bit.idiv', 'bit/div.fj', 'def idiv n, a, b, q, r', 'bit.idiv {n}, {a}, {b}, {q}, {r}',
       [('a', 'bit', 'n'), ('b', 'bit', 'n'), ('q', 'bit', 'n'), ('r', 'bit', 'n')], 'bit_idiv {n}',
-      temps=T_ADD + T_NEGS + [('R', '2*n'), ('Q', 'n')], inst=DIVI([1, 2, 3], [4, 6])),
+      temps=T_ADD + T_NEGS + [('R', '2*n'), ('Q', 'n')], inst=DIVI([1, 2, 3], [4, 6]), pin=BDIV_PIN),
     M('bit.div_loop', 'bit/div.fj', 'def div_loop n, a, b, q, r', 'bit.div_loop {n}, {a}, {b}, {q}, {r}',
       [('a', 'bit', 'n'), ('b', 'bit', 'n'), ('q', 'bit', 'n'), ('r', 'bit', 'n')], 'bit_div {n}',
-      temps=T_ADD + [('A', 'n'), ('R', 'n'), ('Q', 'n'), ('i', 'n')], inst=DIVI([1, 2, 3], [4, 6])),
+      temps=T_ADD + [('A', 'n'), ('R', 'n'), ('Q', 'n'), ('i', 'n')], inst=DIVI([1, 2, 3], [4, 6]), pin=BDIV_PIN),
     M('bit.idiv_loop', 'bit/div.fj', 'def idiv_loop n, a, b, q, r', 'bit.idiv_loop {n}, {a}, {b}, {q}, {r}',
       [('a', 'bit', 'n'), ('b', 'bit', 'n'), ('q', 'bit', 'n'), ('r', 'bit', 'n')], 'bit_idiv {n}',
-      temps=T_ADD + T_NEGS + [('A', 'n'), ('R', 'n'), ('Q', 'n'), ('i', 'n')], inst=DIVI([1, 2, 3], [4, 6])),
+      temps=T_ADD + T_NEGS + [('A', 'n'), ('R', 'n'), ('Q', 'n'), ('i', 'n')], inst=DIVI([1, 2, 3], [4, 6]), pin=BDIV_PIN),
 ]
 
 
-def pinned_domain(entry, params):
-    """domain override of an instance: the entry's `dom` plus, for `pin` instances of the bit division family,
-    q and r pinned to one garbage value each"""
-    dom = dict(entry['dom'])
-    if params.get('pin') and entry['name'].startswith('bit.') and 'div' in entry['name']:
-        dom.update(_divdom(params['n']))
-    return dom
+def pinned_domain(entry, params, vars_):
+    """{placeholder: (lo, hi)} for an instance with pin=1; vars_ = [(placeholder, kind, digits)]"""
+    if not params.get('pin'):
+        return {}
+    out = {}
+    for ph, kind, n in vars_:
+        if ph in entry['pin']:
+            v = entry['pin'][ph] & ((1 << ((4 if kind == 'hex' else 1) * n)) - 1)
+            out[ph] = (v, v + 1)
+    return out
+
+
+# python mirrors of the known-defect predicates of StlSpec.v (none at present: the hex.idiv zero-remainder defect found with
+# this check was fixed in the repo, commit "fix: hex.idiv leaves a zero remainder alone")
+GUARDS = {}
+
+
+def guard_fn(inst):
+    toks = inst.split()
+    return GUARDS[toks[0]](*[int(t, 0) for t in toks[1:]])
